@@ -38,7 +38,7 @@ import lexer
 import renderlib as R
 
 LEVEL = "proof"
-EXTRA_TARGETS = ["model/PadTie.vo", "model/PadHistTie.vo", "model/PadGenTie.vo", "model/PadContentTie.vo", "model/PadAnimTie.vo"]
+EXTRA_TARGETS = ["model/PadTie.vo", "model/PadHistTie.vo", "model/PadGenTie.vo", "model/PadContentTie.vo", "model/PadAnimTie.vo", "model/PadAnimOldTie.vo"]
 HEADER = ("From Coq Require Import List ZArith.\nImport ListNotations.\n"
           "From TI Require Import lib.Term lib.RectCheck model.Padding model.PadTie model.PadGen model.PadGenTie.\n"
           "Open Scope Z_scope.\n")
@@ -50,6 +50,9 @@ CHEADER = ("From Coq Require Import List ZArith.\nImport ListNotations.\n"
            "Open Scope Z_scope.\n")
 AHEADER = ("From Coq Require Import List ZArith.\nImport ListNotations.\n"
            "From TI Require Import lib.Term lib.RectCheck model.Padding model.PadTie model.Draw model.PadAnimTie.\n"
+           "Open Scope Z_scope.\n")
+OHEADER = ("From Coq Require Import List ZArith.\nImport ListNotations.\n"
+           "From TI Require Import lib.Term lib.RectCheck model.Padding model.PadTie model.Draw model.PadAnimOld model.PadAnimOldTie.\n"
            "Open Scope Z_scope.\n")
 IMG_K = 100  # frame numbers of images in a history's table of bare renders (impl_c05.IMG_K)
 
@@ -815,19 +818,133 @@ def describe_anim(c):
             f"frames={c['frames']!r} padding={c['padding']} (top margin {t}, bottom margin {b}) fill={c['fill']}={FILL_STR[c['fill']]!r} term={c['term_size']}")
 
 
+# ANIMATED draws of the IMAGE classes (round 8): BaseImage.draw(animate=True) of an n-frame GIF on a pty, per style and
+# TERMINAL IDENTITY (the style-specific animation paths), with box geometries at the boundary (a padded box of exactly one
+# line; pad_height / pad_width smaller than, equal to, larger than the rendered size; terminal-relative).
+OANIM_IDENT = [("block", "", None), ("kitty", "", (0, 30, 0)), ("kitty", "", (0, 25, 0)),
+               ("iterm2", "wezterm", None), ("iterm2", "iterm2", None), ("iterm2", "konsole", None)]
+
+
+def oanim_case(style, term, kv, height, pad, ha, va, mix=None, method=None, n=3, repeat=1, cached=False, px=(4, 4),
+               term_size=(12, 9), pres=0, seed=1):
+    args = {}
+    if method and style != "block":
+        args["method"] = method
+    if mix is not None and style != "block":
+        args["mix"] = mix
+    c = {"kind": "oanim", "style": style, "term": term, "term_size": list(term_size),
+         "img": {"n_frames": n, "size": list(px), "seed": seed}, "height": height, "pad": list(pad), "ha": ha, "va": va,
+         "pres": pres, "repeat": repeat, "cached": cached, "args": args}
+    if kv:
+        c["kitty_version"] = list(kv)
+    return c
+
+
+def oanim_corpus():
+    cs = []
+    # (rendered height, pad_height, pad_width): one-line box; pad_height smaller / equal / larger by one / larger; relative
+    geo = [(1, 1, 1), (1, 1, 5), (2, 1, 4), (2, 2, 6), (1, 2, 1), (2, 5, 7), (2, -2, 0)]
+    for k, (style, term, kv) in enumerate(OANIM_IDENT):
+        for g, (h, H, W) in enumerate(geo):
+            cs.append(oanim_case(style, term, kv, h, (W, H), (k + g) % 3, (k + 2 * g) % 3, n=2 if g % 2 else 3,
+                                 method="whole" if (k + g) % 4 == 3 else None, pres=g % 2))
+    # mix both ways where the style has the parameter (iterm2 on every identity, kitty)
+    for style, term, kv in OANIM_IDENT[1:]:
+        for mix in (True, False):
+            cs.append(oanim_case(style, term, kv, 2, (6, 4), 1, 0 if mix else 2, mix=mix, n=2))
+            cs.append(oanim_case(style, term, kv, 1, (3, 1), 2, 1, mix=mix, n=2))
+    return cs
+
+
+def gen_oanim_case(rng):
+    style, term, kv = rng.choice(OANIM_IDENT + [("iterm2", "wezterm", None)] * 2)
+    h = rng.choice([1, 1, 2, 3])
+    tw, th = rng.choice([(12, 9), (10, 8), (14, 6)])
+    H = rng.choice([1, h - 1 if h > 1 else 1, h, h + 1, h + 2, h + 3, 0, -2, -th])
+    H = min(H, th)
+    W = rng.choice([1, 2, 3, 4, 5, 7, tw, 0, -3, -tw])
+    px = rng.choice([(4, 4), (2, 4), (6, 4), (4, 4)]) if h < 3 else rng.choice([(4, 4), (2, 4)])
+    return oanim_case(style, term, kv, h, (W, H), rng.randrange(3), rng.randrange(3),
+                      mix=rng.choice([None, True, False]), method=rng.choice([None, "lines", "whole"]),
+                      n=rng.choice([2, 2, 3]), repeat=rng.choice([1, 1, 2]), cached=rng.choice([False, True]),
+                      px=px, term_size=(tw, th), pres=rng.randrange(2), seed=rng.randrange(50))
+
+
+def oanim_pre(c):
+    return c["style"] == "iterm2" and c["term"] == "wezterm" and not c["args"].get("mix", False)
+
+
+def oanim_term(c, res):
+    w, h = res["size"]
+    frames = "[" + "; ".join(lexer.coq_toks(lex_out(f, ())) for f in res["frames"]) + "]"
+    obs = lexer.coq_toks(lex_out(res["out"], ()))
+    oldk = c["style"] == "kitty" and tuple(c.get("kitty_version", (0, 30, 0))) <= (0, 25, 0)
+    return (f"{{| o_tw := {c['term_size'][0]}; o_th := {c['term_size'][1]}; o_rawW := {zz(c['pad'][0])}; o_rawH := {zz(c['pad'][1])}; "
+            f"o_ha := {c['ha']}%nat; o_va := {c['va']}%nat; o_w := {w}; o_h := {h}; o_tty := true; "
+            f"o_pre := {'PrePlaceholder' if oanim_pre(c) else 'PreNone'}; o_oldk := {'true' if oldk else 'false'}; "
+            f"o_frames := {frames}; o_obs := {obs}; o_rows := [0; 3] |}}")
+
+
+def oanim_box(c):
+    """generator-side only: resolved pad_height of an oanim case"""
+    H = c["pad"][1]
+    return H if H > 0 else max(c["term_size"][1] + H, 1)
+
+
+def describe_oanim(c):
+    return (f"{c['style']} image ({c['img']['n_frames']}-frame GIF {c['img']['size']}px seed {c['img']['seed']}, height={c['height']}) on terminal identity "
+            f"{c['term'] or '-'!r}{' kitty ' + str(c['kitty_version']) if c.get('kitty_version') else ''}: "
+            f"draw({'<|>'[c['ha']]!r}, pad_width={c['pad'][0]}, {'^-_'[c['va']]!r}, pad_height={c['pad'][1]}, animate=True, repeat={c['repeat']}, "
+            f"cached={c['cached']}, **{c['args']}) on a pty, terminal {c['term_size']} (padded box {oanim_box(c)} v {c['height']} lines, "
+            f"pre-animation placeholder: {oanim_pre(c)})")
+
+
+def shrink_oanim_candidates(c):
+    cands = []
+    if c["repeat"] > 1:
+        cands.append({**c, "repeat": 1})
+    if c["cached"]:
+        cands.append({**c, "cached": False})
+    if c["img"]["n_frames"] > 2:
+        cands.append({**c, "img": {**c["img"], "n_frames": 2}})
+    if c["args"].get("method"):
+        cands.append({**c, "args": {k: v for k, v in c["args"].items() if k != "method"}})
+    if c["pres"]:
+        cands.append({**c, "pres": 0})
+    W, H = c["pad"]
+    tw, th = c["term_size"]
+    if W <= 0:
+        cands.append({**c, "pad": [max(tw + W, 1), H]})
+    if H <= 0:
+        cands.append({**c, "pad": [W, max(th + H, 1)]})
+    if W > 1:
+        cands += [{**c, "pad": [1, H]}, {**c, "pad": [W - 1, H]}]
+    if H > 1:
+        cands += [{**c, "pad": [W, 1]}, {**c, "pad": [W, H - 1]}]
+    if c["height"] > 1:
+        cands.append({**c, "height": c["height"] - 1})
+    if c["img"]["size"] != [4, 4]:
+        cands.append({**c, "img": {**c["img"], "size": [4, 4]}})
+    if c["ha"]:
+        cands.append({**c, "ha": 0})
+    if c["va"]:
+        cands.append({**c, "va": 0})
+    return cands
+
+
 def eval_extra(cases, tag="c05x"):
     """content and anim cases: run them and judge them inside Coq; returns (impl results, {index: code}, errors)
     with code -1 = raised, -2 = unlexable output"""
     from concurrent.futures import ThreadPoolExecutor
     impl = core.run_impl_parallel("impl_c05.py", cases, chunk=max(40, (len(cases) + 15) // 16))   # few processes for few cases
     codes, errors = {}, []
-    terms = {"content": ([], []), "anim": ([], [])}
+    terms = {"content": ([], []), "anim": ([], []), "oanim": ([], [])}
     for i, (c, r) in enumerate(zip(cases, impl)):
         if "error" in r:
             codes[i] = -1
             continue
         try:
-            terms[c["kind"]][0].append(content_term(c, r) if c["kind"] == "content" else anim_term(c, r))
+            terms[c["kind"]][0].append({"content": content_term, "anim": anim_term, "oanim": oanim_term}[c["kind"]](c, r))
             terms[c["kind"]][1].append(i)
         except lexer.LexError as e:
             codes[i] = -2
@@ -837,11 +954,12 @@ def eval_extra(cases, tag="c05x"):
         ts, own = terms[kind]
         if not ts:
             return [], []
-        hdr, typ, expr = (CHEADER, "ccase", "cbad cases") if kind == "content" else (AHEADER, "acase", "abad cases")
-        bad, errs = core.coq_shards(f"{tag}{kind[0]}", hdr, ts, typ, expr, shard=max(60, (len(ts) + 7) // 8))
+        hdr, typ, expr = {"content": (CHEADER, "ccase", "cbad cases"), "anim": (AHEADER, "acase", "abad cases"),
+                          "oanim": (OHEADER, "ocase", "obad cases")}[kind]
+        bad, errs = core.coq_shards(f"{tag}{kind[0]}", hdr, ts, typ, expr, shard=max(60 if kind != "oanim" else 12, (len(ts) + 7) // 8))
         return [(own[idx], code) for idx, code in bad], errs
-    with ThreadPoolExecutor(max_workers=2) as pool:
-        for bad, errs in pool.map(judge, ("content", "anim")):
+    with ThreadPoolExecutor(max_workers=3) as pool:
+        for bad, errs in pool.map(judge, ("content", "anim", "oanim")):
             errors += errs
             codes.update(dict(bad))
     return impl, codes, errors
@@ -851,6 +969,8 @@ def extra_explain(c, res):
     try:
         if c["kind"] == "content":
             text = CHEADER + f"Set Printing Width 100000.\nEval vm_compute in (cexplain ({content_term(c, res)})).\n"
+        elif c["kind"] == "oanim":
+            text = OHEADER + f"Set Printing Width 100000.\nEval vm_compute in (oexplain ({oanim_term(c, res)})).\n"
         else:
             text = AHEADER + f"Set Printing Width 100000.\nEval vm_compute in (aexplain ({anim_term(c, res)})).\n"
     except lexer.LexError as e:
@@ -865,7 +985,9 @@ def plain_line(ln, w):
 
 
 def shrink_candidates(c):
-    """smaller variants of a content / anim case"""
+    """smaller variants of a content / anim / oanim case"""
+    if c["kind"] == "oanim":
+        return shrink_oanim_candidates(c)
     cands = []
     simple = [{"kind": "exact", "l": 1, "t": 0, "r": 0, "b": 0}, {"kind": "exact", "l": 0, "t": 0, "r": 1, "b": 0},
               {"kind": "exact", "l": 0, "t": 0, "r": 0, "b": 1}, {"kind": "exact", "l": 0, "t": 1, "r": 0, "b": 0}]
@@ -930,6 +1052,9 @@ def shrink_candidates(c):
 
 
 def case_size(c):
+    if c["kind"] == "oanim":
+        return (c["img"]["n_frames"] * c["repeat"] * 10 + c["height"] * 8 + sum(abs(x) if x > 0 else 20 for x in c["pad"]) + len(c["args"]) + c["ha"] + c["va"],
+                c["cached"], c["pres"])
     p = c["padding"]
     pad = sum(p[k] for k in "ltrb") if p["kind"] == "exact" else 50
     body = sum(len(ln) for ln in c["render"]["lines"]) if c["kind"] == "content" else sum(len(ln) for f in c["frames"] for ln in f) * c["loops"]
@@ -960,7 +1085,7 @@ def run(ctx):
         cases = [ctx.replay["replay"]["case"]]
         if cases[0].get("kind") == "history":
             cases, histories = [], cases
-        elif cases[0].get("kind") in ("content", "anim"):
+        elif cases[0].get("kind") in ("content", "anim", "oanim"):
             cases, extra = [], cases
     else:
         n = 320 if ctx.quick else 6000
@@ -971,6 +1096,8 @@ def run(ctx):
         nc, na = (70, 36) if ctx.quick else (2500, 1200)
         extra = (content_corpus() + anim_corpus() + [gen_content_case(rng) for _ in range(nc)]
                  + [gen_anim_case(rng) for _ in range(na)])
+        no = 14 if ctx.quick else 700
+        extra += oanim_corpus() + [gen_oanim_case(rng) for _ in range(no)]
     from concurrent.futures import ThreadPoolExecutor
     with ThreadPoolExecutor(max_workers=3) as pool:   # the histories and the content / animation cases run beside the single cases
         hfut = pool.submit(eval_histories, histories) if histories else None
@@ -990,10 +1117,35 @@ def run(ctx):
     # ---- content and animation cases (round 6)
     hist["content"] = {"cases": 0, "flavour": {}, "via": {}, "horizontally_padded": 0, "characters": {}}
     hist["animations"] = {"cases": 0, "frames_drawn": 0, "top_margin_differs_from_bottom": 0, "flavour": {}, "fill": {}}
+    hist["image_animations"] = {"cases": 0, "identity": {}, "pre_animation_placeholder": 0, "one_line_box": 0,
+                                "pad_height_vs_rendered": {"smaller": 0, "equal": 0, "larger": 0},
+                                "pad_width_vs_rendered": {"smaller": 0, "equal": 0, "larger": 0}, "mix": {}, "method": {},
+                                "draw_rejected_by_size_validation": 0}
     xshrunk = 0
     for i, (c, r) in enumerate(zip(extra, ximpl)):
         anim = c["kind"] == "anim"
-        if anim:
+        oanim = c["kind"] == "oanim"
+        if oanim:
+            ho = hist["image_animations"]
+            ho["cases"] += 1
+            ident = c["style"] + ("/" + c["term"] if c["term"] else "") + ("/old" if tuple(c.get("kitty_version", (0, 30, 0))) <= (0, 25, 0) and c["style"] == "kitty" else "")
+            ho["identity"][ident] = ho["identity"].get(ident, 0) + 1
+            ho["mix"][str(c["args"].get("mix"))] = ho["mix"].get(str(c["args"].get("mix")), 0) + 1
+            ho["method"][str(c["args"].get("method"))] = ho["method"].get(str(c["args"].get("method")), 0) + 1
+            if "size" in r:
+                w, h = r["size"]
+                H = oanim_box(c)
+                W = c["pad"][0] if c["pad"][0] > 0 else max(c["term_size"][0] + c["pad"][0], 1)
+                ho["pad_height_vs_rendered"]["smaller" if H < h else "equal" if H == h else "larger"] += 1
+                ho["pad_width_vs_rendered"]["smaller" if W < w else "equal" if W == w else "larger"] += 1
+                ho["pre_animation_placeholder"] += oanim_pre(c)
+                ho["one_line_box"] += max(H, h) == 1
+                if max(H, h) == 1 or H > h:
+                    distinct.add(core.sig(["oanim", c]))
+            elif "exceeds" in r.get("error", "") or "cannot fit" in r.get("error", "") or "SizeError" in r.get("error", ""):
+                ho["draw_rejected_by_size_validation"] += 1   # generator overshoot (the rendered width is only known after the run): C06's business
+                continue
+        elif anim:
             ha = hist["animations"]
             ha["cases"] += 1
             ha["frames_drawn"] += len(c["frames"]) * c["loops"]
@@ -1020,7 +1172,7 @@ def run(ctx):
         code = xcodes.get(i, 0)
         if code == 0:
             continue
-        descr = describe_anim if anim else describe_content
+        descr = describe_oanim if oanim else describe_anim if anim else describe_content
         if code == -1:
             xfailures.append({"signature": core.sig(["raise", c]), "what": f"raised: {r.get('error')} - {descr(c)}", "replay": {"case": c}})
             continue
@@ -1037,11 +1189,17 @@ def run(ctx):
                 res_small = core.run_impl_parallel("impl_c05.py", [small])[0]
         if code == -2 and "lex_error" not in res_small:
             try:
-                (anim_term if anim else content_term)(small, res_small)
+                (oanim_term if oanim else anim_term if anim else content_term)(small, res_small)
             except lexer.LexError as e:
                 res_small["lex_error"] = str(e)
         why = res_small.get("lex_error") if code == -2 else extra_explain(small, res_small)
-        if anim:
+        if oanim:
+            what = ("an animated draw() of an image does NOT keep every frame inside the padded box max(render, minimum) placed by the "
+                    "alignment where the first frame was drawn, ending with the LAST frame at the offset (top, left) and blanks elsewhere "
+                    f"((margins, first token difference from the model stream, per start row the clauses [margins>=0; box = max(render, minimum); "
+                    f"no event of any frame outside the box; line below untouched; cursor below the box; state clean; box content]) = {why})"
+                    if code != -2 else f"the output of an animated draw() of an image cannot be lexed: {why}")
+        elif anim:
             what = ("after the whole output of an animated draw() has been executed on the terminal, the screen is NOT the padded box "
                     "holding the LAST frame at the offset (top, left) dictated by the alignment with the fill everywhere else "
                     f"((margins, first token difference from the model stream, per start row the clauses [margins>=0; nothing outside the box; "
@@ -1052,7 +1210,7 @@ def run(ctx):
                     f"((margins, inner render is h lines, code-point clauses [margins>=0; lines split at LF only = top+h+bottom; = get_padded_size; "
                     f"every line of the render unchanged on its own line], lines of the output, token-level judgement) = {why})" if code != -2 else
                     f"the padded output of a text render cannot be lexed: {why}")
-        xfailures.append({"signature": core.sig(["content-oracle" if not anim else "anim-oracle", small]),
+        xfailures.append({"signature": core.sig(["oanim-oracle" if oanim else "content-oracle" if not anim else "anim-oracle", small]),
                           "what": f"{what} - {descr(small)}",
                           "replay": {"case": small, "output": res_small.get("out", "")[:1500]}})
     hh = hist["histories"]
@@ -1206,11 +1364,20 @@ def run(ctx):
                 "ANIMATIONS (round 6): Renderable.draw() of 2-3 frame text renderables (1..4 x 1..3, loops 1-2, cache on/off) on a pty with "
                 "paddings whose top margin differs from the bottom margin (VAlign TOP / BOTTOM with slack, MIDDLE with odd slack, "
                 "ExactPadding top != bottom, relative boxes, empty fill); the whole stream executed on the terminal model from two start "
-                "rows, the padding oracle applied to the final screen. Non-trivial: top margin != bottom margin.",
+                "rows, the padding oracle applied to the final screen. Non-trivial: top margin != bottom margin. "
+                "IMAGE ANIMATIONS (round 8): BaseImage.draw(animate=True) of 2-3 frame GIFs on a pty for every style-specific animation "
+                "path - block; kitty (new, and <= 0.25.0 with clearing by z-index); iterm2 style with the class identity wezterm / iterm2 / "
+                "konsole (ITerm2Image._TERM, set per draw) - with mix unset / true / false, method lines / whole, repeat 1-2, cached on/off, "
+                "both spellings of the alignments; corpus: every identity x {padded box of exactly ONE line (1-line render with pad_height 1, "
+                "narrow and wide), pad_height smaller than / equal to / one more than / larger than the rendered height, terminal-relative}, "
+                "pad_width smaller / equal / larger, + mix both ways per identity on a vertically padded box and on a one-line box; the whole "
+                "stream executed on the terminal model (CSI 0 A = up ONE line) from two start rows: NO event of any frame outside the box, "
+                "final content = last frame at (top, left) + blanks. Non-trivial: one-line box or effective vertical padding.",
         "samples": [describe(c) for c in cases[:2] + cases[40:42] if "render" in c]
                    + [describe_history(c) for c in histories[:1] + histories[22:23] + histories[-2:]]
                    + [describe_content(c) for c in extra if c["kind"] == "content"][-1:]
-                   + [describe_anim(c) for c in extra if c["kind"] == "anim"][-1:],
+                   + [describe_anim(c) for c in extra if c["kind"] == "anim"][-1:]
+                   + [describe_oanim(c) for c in extra if c["kind"] == "oanim"][-1:],
         "histogram": hist,
         "mismatches": mismatches,
         "failures": xfailures + failures + lexfailures + hfailures,
@@ -1224,7 +1391,9 @@ def run(ctx):
                         "content: U+2028, U+2029, U+001C..U+001E occupy no column and are ignored by the terminal (token TNul); "
                         "VT, FF, U+0085, combining marks and wide characters have no token in the terminal model: renders holding them are judged "
                         "by the code-point level oracle only (line count, lines unchanged, get_padded_size), not on the screen",
-                        "animations: the frames of the instrumented renderable meet the render contract (lines of w one-column glyphs)"],
+                        "animations: the frames of the instrumented renderable meet the render contract (lines of w one-column glyphs)",
+                        "image animations: the styles' frame renders meet the render contract (LinesRect / Downward: proved for the five render "
+                        "shapes in C01's / C06's development); a cursor movement with parameter 0 moves by one (lib/Term.v pos1, ECMA-48)"],
         "trusted": ["harness/lexer.py", "harness/props/c05.py prelex (whole fill -> placeholder; fail-closed on fragments)",
                     "harness/props/c05.py content_lex (terminal-ignored zero-width character -> NUL)"],
     }
